@@ -304,7 +304,7 @@ Lemma py_step_sim sf sc o sc' r : sim2 sf sc -> inv ts (fst sc) -> inv ts (snd s
 Proof.
   destruct sf as [cf of], sc as [cc oc]. intros [Sc So] [Ic _] _ H. simpl in Sc, So, Ic.
   unfold py_step, py_step_fuel in *. pose proof (seek_fuel_gt ts) as HF.
-  destruct o as [| | | | |x|i| | |x|i].
+  destruct o as [| | | | |x|i| | |x|i]; rewrite ?tree_copy_id in *.
   - inv_bind H as a Ha. destruct a as [t r0]. injection H as <- <-.
     unfold tree_first in *. destruct (tree_next_sim _ _ _ _ (clear_sim _ _ Sc) Ha) as [tf' [E S']].
     rewrite E. cbn [bind]. eexists. split; [reflexivity|]. split; assumption.
